@@ -1,5 +1,7 @@
 import CoapVerif.Lemmas.ServerSeq
 import CoapVerif.Lemmas.Async
+import CoapVerif.Lemmas.AsyncRefs
+import CoapVerif.Lemmas.AsyncPass
 /-
 C10 — server answers each request datagram once, with the protocol-prescribed code.
 
@@ -710,6 +712,252 @@ theorem async_retransmission_acked_only (cfg : Server.Cfg) (tbl : Table) (rq : R
   rw [decisionA_eq_specA true false cfg tbl rq hfit]
   exact deferred_retransmission_acked E false cfg tbl rq h
 
+/-! ### the session reference of an entry (coap_session_reference_lkd in coap_register_async, coap_session_release_lkd in
+coap_free_async_sub) and the idle reaper — for EVERY event sequence from the fresh context (requests that defer,
+retransmissions, time, trigger, set_delay, free, the reaper at the end of every I/O step).  The machine has one holder
+kind (the `coap_async_t`); C12's `ref_eq_holders` is the same balance over all holder kinds of a session (its
+`HKind.async / asyncD` is this one) and covers coap_session_release by the application / session close. -/
+
+/-- after EVERY event sequence: `session->ref` of every session = the number of entries of `context->async_state` whose
+`session` it is (each entry holds exactly one reference from coap_register_async to coap_free_async / its delayed
+invocation), and there is one session per peer address -/
+theorem async_refs_balanced (c : Async.Cfg) (dec : Dec) (evs : List Async.Ev) :
+    (∀ s ∈ (final c dec (St.init c) evs).sess, s.ref = L.cnt (final c dec (St.init c) evs).async s.peer) ∧
+    ((final c dec (St.init c) evs).sess.map (·.peer)).Nodup :=
+  ⟨(L.final_bal c dec evs _ (L.init_bal c)).refs, (L.final_bal c dec evs _ (L.init_bal c)).nodup⟩
+
+/-- after EVERY event sequence every entry names a session that is in the endpoint's table, and that session's
+reference count is not 0; and whatever event comes next, no entry of the list afterwards names a session the event's
+reaper pass freed -/
+theorem async_no_entry_of_freed_session (c : Async.Cfg) (dec : Dec) (evs : List Async.Ev) :
+    (∀ e ∈ (final c dec (St.init c) evs).async, ∃ s ∈ (final c dec (St.init c) evs).sess, s.peer = e.sess ∧ 0 < s.ref) ∧
+    (∀ ev, ∀ e ∈ (step c dec (final c dec (St.init c) evs) ev).1.async,
+      e.sess ∉ (step c dec (final c dec (St.init c) evs) ev).2.reaped) := by
+  have hb := L.final_bal c dec evs _ (L.init_bal c)
+  constructor
+  · intro e he
+    rcases List.mem_map.mp (hb.live _ (List.mem_map_of_mem he)) with ⟨s, hs, hse⟩
+    refine ⟨s, hs, hse, ?_⟩
+    rw [hb.refs s hs, hse]
+    exact L.cnt_pos_of_mem he
+  · intro ev e he hr
+    have := (L.step_bal c dec _ ev hb).2 _ hr
+    have h2 := L.cnt_pos_of_mem he
+    omega
+
+/-- the idle reaper (`ref == 0 && last_rx_tx + session_timeout <= now`) never reclaims a session with a pending entry:
+in every reachable state a session that an entry names is not idle however long nothing was received from the peer, and
+the sessions an event reclaims have no entry left (an entry that fired in the same coap_io_prepare_io call released its
+reference before the reaper looked) -/
+theorem async_pending_session_not_reclaimed (c : Async.Cfg) (dec : Dec) (evs : List Async.Ev) :
+    (∀ now, ∀ s ∈ (final c dec (St.init c) evs).sess, (∃ e ∈ (final c dec (St.init c) evs).async, e.sess = s.peer) →
+      idle c now s = false) ∧
+    (∀ ev, ∀ p ∈ (step c dec (final c dec (St.init c) evs) ev).2.reaped,
+      L.cnt (step c dec (final c dec (St.init c) evs) ev).1.async p = 0 ∧
+      ∀ e ∈ (step c dec (final c dec (St.init c) evs) ev).1.async, e.sess ≠ p) := by
+  have hb := L.final_bal c dec evs _ (L.init_bal c)
+  constructor
+  · intro now s hs ⟨e, he, hes⟩
+    have h1 := hb.refs s hs
+    have h2 := L.cnt_pos_of_mem he
+    rw [hes] at h2
+    have : s.ref ≠ 0 := by omega
+    simp [idle, this]
+  · intro ev p hp
+    have h0 := (L.step_bal c dec _ ev hb).2 p hp
+    refine ⟨h0, ?_⟩
+    intro e he hep
+    have h2 := L.cnt_pos_of_mem he
+    rw [hep] at h2
+    omega
+
+/-- the invariant is inductive: it holds in the fresh state and every event preserves it from ANY state that has it -/
+theorem async_balance_inductive (c : Async.Cfg) (dec : Dec) :
+    L.Bal (St.init c) ∧ ∀ st ev, L.Bal st → L.Bal (step c dec st ev).1 :=
+  ⟨L.init_bal c, fun st ev h => (L.step_bal c dec st ev h).1⟩
+
+/-! ### the second pass: handle_request(context, async->session, async->pdu) from coap_check_async.
+libcoap keeps no pointer to the resource (or the handler) in the `coap_async_t`: the second pass selects the resource
+again from the Uri-Path of the stored copy, in the resource table as it is THEN. -/
+
+/-- configuration and resource table unchanged in between: the second pass calls the same handler of the same resource
+as the first pass did, with exactly the first call's request view (method, path, query, options, payload) — whatever
+message id the copy got, whatever the handler answers this time.  (Scope of the machine: no proxy options — a stored
+request for the proxy-URI resource is `oos` —, no Observe; a handler that sets no code / 5.08 in the second pass is
+D13 / D8.) -/
+theorem async_second_pass_same_handler (cfg : Server.Cfg) (tbl : Table) (rq : Request) (call : Call) (mid : Nat)
+    (v : Verdict) (hprx : hasOpt rq.msg.opts 35 = false ∧ hasOpt rq.msg.opts 39 = false)
+    (hv : v.code ≠ 0 ∧ v.code ≠ 168)
+    (h1 : ((serverDec cfg tbl).first false rq).call = some call) :
+    ((serverDec cfg tbl).again ⟨rq.msg.type, call.code, mid, rq.msg.token, call.opts, call.payload⟩ v).call =
+      some call := by
+  simp only [serverDec] at h1 ⊢
+  by_cases h6 : hasOpt rq.msg.opts 6 = true
+  · rw [if_pos h6] at h1; cases h1
+  · rw [if_neg h6] at h1
+    have h6' : hasOpt rq.msg.opts 6 = false := by simpa using h6
+    obtain ⟨crit, hA⟩ := L.decisionA_call cfg tbl rq call h1
+    obtain ⟨os', sel, hopt, hs, hc, hw, hcall⟩ := L.handleA_call cfg tbl rq crit _ call
+      (by rw [hasOpt_clear]; exact hprx.1) (by rw [hasOpt_clear]; exact hprx.2) (by rw [hasOpt_clear]; exact h6') hA
+    have hcode : call.code = rq.msg.code := congrArg Call.code hcall
+    have hopts : call.opts = os' := congrArg Call.opts hcall
+    have hpl : call.payload = rq.msg.payload := congrArg Call.payload hcall
+    have ho : ∀ n, hasOpt call.opts n = hasOpt rq.msg.opts n := by
+      intro n; rw [hopts, hopt, hasOpt_clear]
+    rw [L.handleD_call cfg tbl _ v hv (by dsimp only; rw [ho]; exact hprx.1) (by dsimp only; rw [ho]; exact hprx.2)
+      (by dsimp only; rw [ho]; exact h6')]
+    dsimp only
+    rw [hcode, hopts, hs]
+    dsimp only
+    rw [L.checkStage_again cfg rq ⟨false, ⟨rq.msg.type, rq.msg.code, mid, rq.msg.token, os', call.payload⟩, v, .absent⟩ os' sel rfl rfl hc]
+    dsimp only
+    rw [hw, Option.map_some, hpl]
+    exact congrArg some hcall.symm
+
+/-- the table may have CHANGED in between (coap_delete_resource, coap_add_resource, handlers re-registered): whatever
+the table `tbl'` is when the stored copy `m` is handed over, a handler that runs is the handler registered THEN for the
+stored method — of the resource that has the stored Uri-Path in `tbl'` (at the index reported), or the
+unknown-resource handler of `tbl'` —, and it is given exactly the stored options, payload and method -/
+theorem async_second_pass_handler_of_current_table (cfg : Server.Cfg) (tbl' : Table) (m : Msg) (v : Verdict) (call : Call)
+    (hprx : hasOpt m.opts 35 = false ∧ hasOpt m.opts 39 = false) (h6 : hasOpt m.opts 6 = false)
+    (h : ((serverDec cfg tbl').again m v).call = some call) :
+    call.code = m.code ∧ call.path = M.uriPath m.opts ∧ call.query = M.query m.opts ∧ call.opts = m.opts ∧
+    call.payload = m.payload ∧
+    (match call.who with
+     | .res i => ∃ r, tbl'.res[i]? = some r ∧ r.path = M.uriPath m.opts ∧ handlerBit r.mask m.code = true
+     | .unk => ∃ u, tbl'.unk = some u ∧ handlerBit u.mask m.code = true
+     | .prx => False) := by
+  simp only [serverDec] at h
+  by_cases hv : v.code ≠ 0 ∧ v.code ≠ 168
+  · rw [L.handleD_call cfg tbl' m v hv hprx.1 hprx.2 h6] at h
+    cases hs : M.selectStage tbl' m.code false (M.uriPath m.opts) with
+    | inl r => rw [hs] at h; cases h
+    | inr sel =>
+      rw [hs] at h
+      dsimp only at h
+      cases hc : M.checkStage cfg ⟨false, m, v, .absent⟩ m.opts sel with
+      | some r => rw [hc] at h; cases h
+      | none =>
+        rw [hc] at h
+        dsimp only at h
+        have hb := L.checkStage_none_handler _ _ _ _ hc
+        have ht := L.select_in_table tbl' m.code _ sel hs
+        cases sel with
+        | res i r =>
+          simp only [Sel.who, Option.map_some, Option.some.injEq] at h
+          subst h
+          exact ⟨rfl, rfl, rfl, rfl, rfl, r, ht.1, ht.2, hb⟩
+        | unk u =>
+          simp only [Sel.who, Option.map_some, Option.some.injEq] at h
+          subst h
+          exact ⟨rfl, rfl, rfl, rfl, rfl, u, ht.1, hb⟩
+        | prx p => exact absurd ht (by simp [L.InTable])
+        | wk => simp [Sel.who] at h
+  · unfold handleRequestD at h
+    by_cases h168 : v.code = 168
+    · simp [h168, Outcome.outOfScope] at h
+    · have h0 : v.code = 0 := by
+        apply Decidable.byContradiction
+        intro hn
+        exact hv ⟨hn, h168⟩
+      simp [h0, Outcome.outOfScope] at h
+
+/-- … in particular: the resource was deleted in between (no resource of the current table has the stored Uri-Path):
+no handler of an ordinary resource runs — the stored request goes to the unknown-resource handler if the current table
+has one for the method, else it is answered 4.04 (2.02 for DELETE) / by `.well-known/core` like a received request
+(as a separate response: Confirmable for a Confirmable request, see `async_second_pass_error_is_separate_response`) -/
+theorem async_deleted_resource_handler_never_runs (cfg : Server.Cfg) (tbl' : Table) (m : Msg) (v : Verdict) (call : Call)
+    (hprx : hasOpt m.opts 35 = false ∧ hasOpt m.opts 39 = false) (h6 : hasOpt m.opts 6 = false)
+    (hdel : ∀ r ∈ tbl'.res, r.path ≠ M.uriPath m.opts)
+    (h : ((serverDec cfg tbl').again m v).call = some call) :
+    call.who = .unk ∧ ∃ u, tbl'.unk = some u ∧ handlerBit u.mask m.code = true := by
+  have := (async_second_pass_handler_of_current_table cfg tbl' m v call hprx h6 h).2.2.2.2.2
+  cases hw : call.who with
+  | res i =>
+    rw [hw] at this
+    obtain ⟨r, hr, hp, _⟩ := this
+    exact absurd hp (hdel r (List.mem_of_getElem? hr))
+  | unk => rw [hw] at this; exact ⟨rfl, this⟩
+  | prx => rw [hw] at this; exact absurd this id
+
+/-- an error response of the second pass (only possible when the table changed in between) is a separate response too:
+never an ACK — its message id is the stored copy's, which acknowledges nothing the client sent -/
+theorem async_second_pass_error_is_separate_response (cfg : Server.Cfg) (rq : Request) (os : Opts) (resp : Nat)
+    (res : Option Nat) : ∀ r ∈ (failResponseD cfg rq os resp res).replies, r.type ≠ ACK := by
+  have key : ∀ x : Reply, x.type ≠ ACK → (M.noResponse cfg rq res x).2.type ≠ ACK := by
+    intro x hx
+    unfold M.noResponse
+    dsimp only
+    repeat' split
+    all_goals first | exact hx | (rename_i h; exact absurd h hx)
+  have h2 : ∀ x : Reply, x.type ≠ ACK → (ackStrip (stripObserve false x)).type ≠ ACK := by
+    intro x hx
+    have : stripObserve false x = x := by simp [stripObserve]
+    rw [this]
+    unfold ackStrip
+    rw [if_neg (fun h => hx h.1)]
+    exact hx
+  have h4 : ∀ x : Reply, x.type ≠ ACK → (M.sendFix rq.mcast x).type ≠ ACK := by
+    intro x hx
+    unfold M.sendFix
+    split
+    · exact hx
+    · exact hx
+  have h0 : (if (M.errReply rq.msg os resp M.Filter.empty).type = ACK then
+      { M.errReply rq.msg os resp M.Filter.empty with type := CON } else M.errReply rq.msg os resp M.Filter.empty).type ≠ ACK := by
+    split
+    · show CON ≠ ACK
+      decide
+    · assumption
+  intro r hr
+  unfold failResponseD M.deliver M.post at hr
+  dsimp only at hr
+  by_cases hd : (M.noResponse cfg rq res (if (M.errReply rq.msg os resp M.Filter.empty).type = ACK then
+      { M.errReply rq.msg os resp M.Filter.empty with type := CON } else M.errReply rq.msg os resp M.Filter.empty)).1 = .drop
+  · rw [if_pos hd] at hr; simp at hr
+  · rw [if_neg hd, List.mem_singleton] at hr
+    rw [hr]
+    split
+    · exact h4 _ (h2 _ (key _ h0))
+    · exact h2 _ (key _ h0)
+
+/-- the machine with a changing table (`stepT`): the balance is untouched by coap_delete_resource, and whatever the
+events before (deletions included) a delayed invocation is decided by the table as it is at that moment — so
+`async_second_pass_handler_of_current_table` / `async_deleted_resource_handler_never_runs` apply to everything that
+fires with `tbl' := x.tbl` -/
+theorem async_changing_table (c : Async.Cfg) (cfg : Server.Cfg) (x : StT) (ev : EvT) (hb : L.Bal x.st) :
+    L.Bal (stepT c cfg x ev).1.st ∧
+    (∀ f ∈ (stepT c cfg x ev).2.fired, ∃ v, f.out = (serverDec cfg x.tbl).again f.entry.req v) ∧
+    (∀ k, ev = .delRes k → (stepT c cfg x ev).1.st = x.st ∧ (stepT c cfg x ev).2.fired = []) := by
+  cases ev with
+  | ev e =>
+    refine ⟨(L.step_bal c _ x.st e hb).1, ?_, by intro k hk; cases hk⟩
+    intro f hf
+    exact ⟨_, (async_fired_were_registered c (serverDec cfg x.tbl) x.st e f hf).2.2.2⟩
+  | delRes k =>
+    exact ⟨hb, by intro f hf; simp [stepT] at hf, fun _ _ => ⟨rfl, rfl⟩⟩
+
+/-- the machine: the entry a deferring datagram registered, when it is handed over under the unchanged table, reaches
+the handler call the datagram itself reached -/
+theorem async_registered_entry_second_pass (c : Async.Cfg) (cfg : Server.Cfg) (tbl : Table) (st : St) (p : Nat)
+    (defer : Option Nat) (rq : Request) (e : Entry) (v : Verdict)
+    (hprx : hasOpt rq.msg.opts 35 = false ∧ hasOpt rq.msg.opts 39 = false) (hv : v.code ≠ 0 ∧ v.code ≠ 168)
+    (hreg : (rxOwn c (serverDec cfg tbl) st p defer rq).1.2 = some e) :
+    ∃ call, (rxOwn c (serverDec cfg tbl) st p defer rq).2.call = some call ∧
+      ((serverDec cfg tbl).again e.req v).call = some call := by
+  unfold rxOwn at hreg ⊢
+  dsimp only at hreg ⊢
+  split at hreg
+  · rename_i d call hcall
+    obtain ⟨hf, mid, he⟩ := L.register_some _ _ _ _ _ _ _ hreg
+    dsimp only at hf
+    refine ⟨call, hcall, ?_⟩
+    rw [hf] at hcall
+    rw [he]
+    simp only [Option.isSome_none, Option.isSome_some, if_true] at hcall
+    exact async_second_pass_same_handler cfg tbl { rq with verdict := ⟨0, []⟩ } call mid v hprx hv hcall
+  · cases hreg
+
 /-! non-vacuity: GET /a from peer 1 deferred for 500 ticks, retransmitted, 499 ticks pass (nothing), 1 more tick (the
 delayed invocation: the handler is given the stored request and its 2.05 goes out as a separate Confirmable response) -/
 def exACfg : Async.Cfg := ⟨1000, 2000, 32896⟩
@@ -728,6 +976,50 @@ def exASt : St := (step exACfg (serverDec exCfg exTbl) (St.init exACfg) (.rx 1 (
 example : (find exASt.async 1 exAgain.rq.msg.token).isSome = true := by decide
 example : (0 < exASt.now ∧ exASt.now < W) ∧ (∀ e ∈ exASt.async, e.delay < W) ∧ exASt.async ≠ [] := by decide
 example : fits exCfg ∧ hasOpt exAgain.rq.msg.opts 6 = false := by decide
+
+/-! non-vacuity of the balance: deferred for 5000 ticks; 3000 ticks later the session has long been silent (timeout 2000)
+but holds a reference: not reclaimed; at 6000 the entry fires (reference dropped, response sent); 2000 ticks later the
+session is reclaimed -/
+def exBRun : List Async.Ev :=
+  [.rx 1 (some 5000) exAgain.rq, .io 3000 ⟨69, [104, 105]⟩, .io 2000 ⟨69, [104, 105]⟩, .io 2000 ⟨69, [104, 105]⟩]
+example : (run exACfg (serverDec exCfg exTbl) (St.init exACfg) exBRun).map (fun o => (o.fired.length, o.reaped)) =
+    [(0, []), (0, []), (1, []), (0, [1])] := by decide
+example : ((final exACfg (serverDec exCfg exTbl) (St.init exACfg) (exBRun.take 2)).sess.map (fun s => (s.peer, s.ref, s.last)),
+           (final exACfg (serverDec exCfg exTbl) (St.init exACfg) (exBRun.take 2)).now) = ([(1, 1, 1000)], 4000) := by decide
+
+/-! non-vacuity of the second-pass theorems: GET /a with Hop-Limit 5 and a query (the handler's view has Hop-Limit 4:
+the stored copy; the second pass must not decrement again), unchanged table ⇒ the same call; table without /a ⇒ 4.04 in
+an ACK with the copy's message id and no handler; table without /a but with an unknown-resource handler ⇒ that one -/
+def exHop : Request := ⟨false, ⟨0, 1, 7, [1], [(11, [97]), (15, [120]), (16, [5])], []⟩, ⟨0, []⟩, .absent⟩
+def exHopCall : Call := ⟨.res 0, 1, [97], [120], [(11, [97]), (15, [120]), (16, [4])], []⟩
+def exStored : Msg := ⟨0, 1, 32897, [1], exHopCall.opts, []⟩
+example : ((serverDec exCfg exTbl).first false exHop).call = some exHopCall ∧
+    (hasOpt exHop.msg.opts 35 = false ∧ hasOpt exHop.msg.opts 39 = false) := by decide
+example : ((serverDec exCfg exTbl).again exStored ⟨69, [104, 105]⟩).call = some exHopCall :=
+  async_second_pass_same_handler exCfg exTbl exHop exHopCall 32897 ⟨69, [104, 105]⟩ (by decide) (by decide) (by decide)
+def exTblDel : Table := ⟨none, none, []⟩
+def exTblDelUnk : Table := ⟨some ⟨1, 0⟩, none, []⟩
+example : (∀ r ∈ exTblDel.res, r.path ≠ M.uriPath exStored.opts) ∧
+    (((serverDec exCfg exTblDel).again exStored ⟨69, [104, 105]⟩).call = none) ∧
+    (((serverDec exCfg exTblDel).again exStored ⟨69, [104, 105]⟩).replies.map (fun r => (r.type, r.code, r.mid))) =
+      [(CON, 132, 32897)] := by decide
+example : (∀ r ∈ exTblDelUnk.res, r.path ≠ M.uriPath exStored.opts) ∧
+    (((serverDec exCfg exTblDelUnk).again exStored ⟨69, [104, 105]⟩).call.map (·.who)) = some .unk := by decide
+example : (rxOwn exACfg (serverDec exCfg exTbl) (St.init exACfg) 1 (some 500) exHop).1.2.map (·.req) = some exStored := by
+  decide
+
+/-! observation (a): an entry waiting for a trigger (`delay == 0`) is not skipped by the `next_due` computation of
+coap_check_async: it contributes `0 - now` (uint64_t).  With only such entries the function returns 2^64 − now — not a
+deadline of anything.  No property is contradicted: C10 does not speak about waits, `async_wait_le_earliest_deadline`
+(the returned wait is never LATER than the earliest real deadline) holds regardless because 2^64 − now only loses
+against real distances, and C06's wait statement is about retransmission deadlines; the effect is a wake-up of the
+application's I/O loop that finds nothing to do (coap_io_prepare_io truncates the value to its timeout type). -/
+theorem async_wait_of_untriggered_entry_witness :
+    (prepare exACfg (serverDec exCfg exTbl) ⟨69, [104, 105]⟩
+      (step exACfg (serverDec exCfg exTbl) (St.init exACfg) (.rx 1 (some 0) exAgain.rq)).1).2.wait =
+      some (W - 1000) ∧
+    (step exACfg (serverDec exCfg exTbl) (St.init exACfg) (.rx 1 (some 0) exAgain.rq)).1.async.map (·.delay) = [0] := by
+  decide
 
 end Async
 
